@@ -190,8 +190,10 @@ theorem cmpCore_noPanic (strict : Bool) (op line : Nat) (lhs rhs : FE)
           by_cases hc : rhs.op = fString ∨ rhs.op = fInt
           · simp only [hc, decide_true, if_true]; exact strOnly_noPanic lhs hls
           · simp only [hc, decide_false, Bool.false_eq_true, if_false]
-            exact strBoth_noPanic lhs rhs hls
-              (operand_str_of_nonlit rhs w1 (fun h => hc (Or.inl h)) (fun h => hc (Or.inr h)))
+            split
+            · exact strBoth_noPanic lhs rhs hls
+                (operand_str_of_nonlit rhs w1 (fun h => hc (Or.inl h)) (fun h => hc (Or.inr h)))
+            · exact ⟨_, rfl⟩
         · simp only [hs, if_false]; exact ⟨_, rfl⟩
     · intro _; exact ⟨_, rfl⟩
 
